@@ -295,6 +295,11 @@ func GenDataset(r *Rng, w Window, lookback int64, maxSeries int, hostile, withHi
 		for _, ln := range labelNames {
 			if r.P(0.62) {
 				ls[ln] = Pick(r, labelValues)
+				if hostile && r.P(0.15) {
+					// a value that is a proper prefix of / extends another one, with labels after it: byte-wise
+					// orders of encoded label sets disagree with labels.Compare here
+					ls[ln] += Pick(r, []string{"0", "x", "1"})
+				}
 			}
 		}
 		if r.P(0.08) {
@@ -994,6 +999,16 @@ func genQuery(r *Rng, g *GenCfg) string {
 		}
 		return q.scalar(d)
 	case "func":
+		if g.on("unary") && r.P(0.04) {
+			// the sign of a zero under a unary minus is only visible through a division (-(+0) is -0)
+			return Pick(r, []string{"1 / -(time() - time())", "1 / -vector(0)", "1 / -" + q.selector(), "1 / -abs(" + q.selector() + ")",
+				"-1 / -(" + q.selector() + " * 0)", "1 / -scalar(" + q.selector() + ")", "1 / (0 * -" + q.selector() + ")", "1 / -(-" + q.selector() + ")"})
+		}
+		if g.on("hist") && g.on("fn:histogram_quantile") && g.on("param:scalar") && r.P(0.02) {
+			// a quantile that changes from step to step
+			return Pick(r, []string{"histogram_quantile((time() % 100) / 100, h_bucket)", "histogram_quantile(scalar(sum(m1)) / 1000, rate(h_bucket[2m]))",
+				"histogram_quantile((time() % 7) / 7, h_bucket" + q.matchers() + ")"})
+		}
 		switch r.Intn(10) {
 		case 0, 1:
 			return q.scalar(d)
